@@ -34,6 +34,7 @@ type envOpts struct {
 	Keepalive time.Duration
 	Handler   func(s xmpp.Sender, p stanza.Packet)
 	Gate      func(name string)
+	GateKV    func(name string, kv []interface{})
 	FailWrite int
 	Partial   bool
 	KeepOpen  bool
@@ -41,7 +42,7 @@ type envOpts struct {
 }
 
 func newSessEnv(w *tr.Writer, tid int, o envOpts) (*sessEnv, error) {
-	run := &sessRun{cnt: map[string]int{}, w: w, tid: tid, gate: o.Gate}
+	run := &sessRun{cnt: map[string]int{}, w: w, tid: tid, gate: o.Gate, gateKV: o.GateKV}
 	run.cond = sync.NewCond(&run.mu)
 	curRun.Store(run)
 	env := &sessEnv{run: run, w: w, before: libGoroutines(), rdDone: make(chan struct{})}
